@@ -154,6 +154,12 @@ func genC16(r *sim.Rng, i int) *c16Case {
 		c.Sub = r.Pick([]string{"shell", "shell", "netconf"})
 		c.Auth = r.Pick([]string{"none", "password"})
 	}
+	if c.Kind == "system" && r.Chance(1, 5) {
+		// the netconf flavour of the system transport has its own open path; its pty is cooked (known
+		// findings), so only the life cycle is exercised: a read blocked on a silent peer, then close
+		c.Sub, c.Mode = "netconf", "close"
+		return c
+	}
 	if r.Chance(1, 6) {
 		c.Mode = "session"
 		c.Sess = genC16Sess(r, c)
@@ -213,6 +219,10 @@ func c16Corpus() []*c16Case {
 		{Kind: "standard", Sub: "netconf", Auth: "none", Via: "impl", Mode: "peerclose", N: 16, Steps: []c16Step{{Op: "w", B: h("<hello/>]]>]]>")}, {Op: "s", B: h("<hello/>]]>]]>")}}},
 		{Kind: "system", Via: "impl", Mode: "close", N: 81, Initial: h(big[:8192]), Steps: []c16Step{{Op: "w", B: ff}, {Op: "w", B: h("\r\n\x03\x04\x11\x13\x1a\x1c\x7f")}}},
 		{Kind: "system", Via: "transport", Mode: "peerclose", N: 8192, Steps: []c16Step{{Op: "w", B: h(big[:8192*3+5])}}},
+		// the netconf flavour of the system transport (its own open path): a read blocked on a silent peer must return on close
+		{Kind: "system", Sub: "netconf", Via: "impl", Mode: "close", N: 64},
+		{Kind: "system", Sub: "netconf", Via: "transport", Mode: "close", N: 8192},
+		{Kind: "system", Sub: "shell", Via: "transport", Mode: "close", N: 64},
 		{Kind: "system-ssh", Sub: "shell", Auth: "none", Via: "transport", Mode: "close", N: 64, Steps: []c16Step{{Op: "s", B: ff}, {Op: "w", B: ff}, {Op: "w", B: h("show version\n")}}},
 		{Kind: "system-ssh", Sub: "shell", Auth: "none", Via: "impl", Mode: "peerclose", N: 8192, Steps: []c16Step{{Op: "s", B: h(big[:8192*3+5])}, {Op: "w", B: h(big[:9000])}}},
 		// probe: a line starting with '~' — the ssh client's escape character on a pty session
@@ -610,17 +620,28 @@ func runC16Case(id string, c *c16Case) {
 	if earlyEnd && !(c.Kind == "system" && c.Mode == "peerclose") { // (the stand-in leaves by itself)
 		fail("read-ended-early", "Read returned an error while the connection was up: %v", readsBefore[len(readsBefore)-1].err)
 	}
+	// the unblock-on-close clause is independent of the byte-stream clauses: a failure of it names
+	// the class even when the stream already differed (e.g. in a probe of a known stream finding)
+	lifecycle := ""
 	if !unblocked {
-		fail("blocked-read:"+c.Mode, "a Read blocked at %s time was still blocked %v later", c.Mode, limit)
+		lifecycle = fmt.Sprintf("a Read blocked at %s time was still blocked %v later", c.Mode, limit)
+		cs.Sig = "C16:blocked-read:" + c.Mode
 	}
 	if !closeReturned {
-		fail("close-hangs", "Close did not return within 2 s")
+		lifecycle += " Close did not return within 2 s"
+		cs.Sig = "C16:close-hangs"
+	}
+	if lifecycle != "" {
+		if cs.Oracle != "" {
+			lifecycle += "; " + cs.Oracle
+		}
+		cs.Oracle = strings.TrimSpace(lifecycle)
 	}
 	if os.Getenv("C16_TIMING") != "" {
 		fmt.Fprintf(os.Stderr, "c16-timing %s %s unblocked=%v after=%v close-error=%v\n", c.Kind, c.Mode, unblocked, dt.Round(100*time.Microsecond), closeErr)
 	}
 	cs.Nontrivial = len(expect) > c.N && len(writes) > 0
-	if cs.Oracle != "" {
+	if cs.Oracle != "" && lifecycle == "" {
 		switch c.Probe {
 		case "tilde", "tilde-dot": // the ssh client's escape character ('~' at the start of a line)
 			cs.Sig = "C16:ssh-escape-char"
